@@ -1,6 +1,8 @@
 package main
 
 import (
+	"fmt"
+	"io/ioutil"
 	"path/filepath"
 	"strings"
 	"time"
@@ -106,8 +108,43 @@ func mkComponent(wf *sp.Workflow, k *toks) *node {
 		n.pouts["param"] = c.OutParam()
 		n.pouts["out"] = c.OutParam()
 		n.other = c
+	case "pairgen":
+		// a component written against the public API that emits, in lock-step, a parameter value on "out" (parameter
+		// port) and a file on "out" (file port): v0, f0, v1, f1, ...
+		cnt := k.int()
+		g := newPairGen(wf, name, cnt)
+		n.outs["out"] = g.OutPort("out")
+		n.pouts["out"] = g.OutParamPort("out")
+		n.other = g
 	default:
 		panic("unknown component kind " + kind)
 	}
 	return n
+}
+
+type pairGen struct {
+	sp.BaseProcess
+	n int
+}
+
+func newPairGen(wf *sp.Workflow, name string, n int) *pairGen {
+	g := &pairGen{BaseProcess: sp.NewBaseProcess(wf, name), n: n}
+	g.InitOutPort(g, "out")
+	g.InitOutParamPort(g, "out")
+	wf.AddProc(g)
+	return g
+}
+
+func (g *pairGen) Run() {
+	defer g.CloseAllOutPorts()
+	for i := 0; i < g.n; i++ {
+		g.OutParamPort("out").Send(fmt.Sprintf("v%d", i))
+		path := fmt.Sprintf("%s_%02d.txt", g.Name(), i)
+		ioutil.WriteFile(path, []byte(path+"\n"), 0644)
+		ip, err := sp.NewFileIP(path)
+		if err != nil {
+			panic(err)
+		}
+		g.OutPort("out").Send(ip)
+	}
 }
